@@ -358,6 +358,10 @@ bool Directory::copy(const String& from, const String& to)
 	if(tofile.isDirectory())
 		topath = to + '/' + File(from).name();
 
+	struct stat srcinfo, dstinfo;
+	if (stat(from, &srcinfo) == 0 && stat(topath, &dstinfo) == 0 && srcinfo.st_dev == dstinfo.st_dev && srcinfo.st_ino == dstinfo.st_ino)
+		return false; // the same file: opening it for writing would empty the source
+
 	File dst(topath, File::WRITE);
 	if(!dst)
 		return false;
